@@ -3,6 +3,7 @@ From Coq Require Import List NArith ZArith.
 From YV Require Import Base.Wire Model.Binary Model.Batch Model.InPlace.
 From YV Require Import Proofs.ProtocolProofs Proofs.BatchProofs Proofs.InPlaceProofs.
 From YV Require Import Model.CodedCpp Model.CodedPy Model.PyTyped Proofs.PyTypedProofs Model.PyReadProg Model.PyTypedRead Proofs.PyTypedReadProofs.
+From YV Require Import Model.Fallback Proofs.FallbackProofs.
 From YV Require Import Model.CppLayout Model.CppTyped Proofs.CppTypedProofs Model.CppReadProg Model.CppTypedRead Proofs.CppTypedReadProofs.
 Import ListNotations.
 Open Scope N_scope.
@@ -63,6 +64,31 @@ Theorem C17_cpp_stream_any_batch : forall t batch items fuel rest,
   arun_c (cpp_read_stream fuel t) (cbytes (cpp_stream_ops t batch items) ++ rest) = CVal items rest.
 Proof. exact cpp_stream_any_batch. Qed.
 Print Assumptions C17_cpp_stream_any_batch.
+
+(* readers without a batch method of their own (the generated C++ NDJSON reader, hand-written readers) go through the fallback
+   Read<Step>Impl(std::vector&) that yardl writes into protocols.cc: one batch read into a vector of ANY previous contents and any
+   capacity > 0 yields the next min(capacity, remaining) items in order and `true` iff the vector could be filled ... *)
+Theorem C17_cpp_fallback_batch : forall (A : Type) (dflt : A) (src vals : list A) (cap : nat),
+  (0 < cap)%nat -> (length vals <= cap)%nat ->
+  fb dflt src vals cap 0 =
+    if (cap <=? length src)%nat then (true, firstn cap src, skipn cap src) else (false, src, []).
+Proof. exact fallback_batch. Qed.
+Print Assumptions C17_cpp_fallback_batch.
+
+(* ... so the documented read loop / CopyTo with ONE reused vector delivers exactly the items of the stream for every capacity
+   (tie: the C17 check reads NDJSON streams through generated C++ with capacities 1, 2, 3, 7 on every run) *)
+Theorem C17_cpp_fallback_any_capacity : forall (A : Type) (dflt : A) fuel (src vals : list A) (cap : nat),
+  (0 < cap)%nat -> (length vals <= cap)%nat -> (length src < fuel)%nat ->
+  drain (fb dflt) fuel src vals cap = src.
+Proof. exact fallback_drain. Qed.
+Print Assumptions C17_cpp_fallback_any_capacity.
+
+(* `values.pop_back()` in place of `values.resize(i)` at the end of the stream (seeded change C17-4): 4 items read with capacity 3
+   deliver a stale fifth item *)
+Theorem C17_cpp_fallback_popback_refuted :
+  drain (fb_popback 0%nat) 10 [1; 2; 3; 4]%nat [] 3 = [1; 2; 3; 4; 2]%nat /\ drain (fb 0%nat) 10 [1; 2; 3; 4]%nat [] 3 = [1; 2; 3; 4]%nat.
+Proof. exact fallback_popback_refuted. Qed.
+Print Assumptions C17_cpp_fallback_popback_refuted.
 
 Example C17_hyp_sat :
   forallb (forallb (has_type (TMap (TPrim PString) (TPrim PInt32))))
